@@ -11,7 +11,7 @@ from .tagtable import constructors
 from . import tr
 from . import mergetrace as mt
 from ..fde import FDE, Obj, Opaque
-from .common import fde_guard, PRIOS
+from .common import fde_guard, PRIOS, thorough
 
 from .common import Guard  # noqa: E402
 
@@ -135,8 +135,23 @@ def r2(repo, run):
     kinds = {k: ('ext', ('kind', k)) for k in KINDS}
     bad = []
     rows = 0
-    for sig in SIGNATURES:
-        for args in ARGS:
+    sigs, argsets = SIGNATURES, ARGS
+    if thorough():
+        # every well-formed signature of up to 3 parameters (order of kinds as Python requires) x every argument mapping with up to
+        # 3 keys out of {0, 1, 2, 3, 'a', 'k'}
+        import itertools
+        order = {PO: 0, POK: 1, VP: 2, KO: 3, VK: 4}
+        sigs = []
+        for n in range(0, 4):
+            for ks in itertools.product(KINDS, repeat=n):
+                if list(ks) != sorted(ks, key=lambda k: order[k]) or ks.count(VP) > 1 or ks.count(VK) > 1:
+                    continue
+                sigs.append([('abc'[i], k) for i, k in enumerate(ks)])
+        keys = [0, 1, 2, 3, 'a', 'k']
+        argsets = [{k: 'v%s' % k for k in sub} for n in range(0, 4) for sub in itertools.combinations(keys, n)]
+        argsets += [{1: 'v1', 0: 'v0'}, {2: 'v2', 0: 'v0', 1: 'v1'}]
+    for sig in sigs:
+        for args in argsets:
             params = {}
             for name, kind in sig:
                 params[name] = Obj('param_' + name, 'object', kind=kinds[kind])
